@@ -87,6 +87,7 @@ def lake_build(targets, timeout=3000):
     return r.returncode == 0, log
 
 
+_ENV_ERR = re.compile(r"NameError|ImportError|ModuleNotFoundError|MemoryError|BlockingIOError|Too many open files|Cannot allocate memory")
 _THM = re.compile(r"^\s*(?:private\s+)?theorem\s+([A-Za-z_][A-Za-z0-9_.']*)", re.M)
 _FORBIDDEN = re.compile(
     r"\bsorry\b|\badmit\b|^\s*axiom\s|native_decide|bv_decide|implemented_by|\bunsafe\s|maxHeartbeats\s+0"
@@ -455,6 +456,13 @@ class Check:
         slow = [i for i, r in enumerate(results) if isinstance(r, dict) and r.get("outcome") == "hang"]
         for i in slow[:40]:
             results[i] = run_forked(impl, cases[i], 6 * per_case_timeout)
+        # an exception that points at the environment rather than at the library (a failed lazy import while the machine is
+        # oversubscribed, out of memory, too many open files) is not a verdict: such a case is run again on its own, once
+        envish = [i for i, r in enumerate(results) if isinstance(r, dict) and _ENV_ERR.search(str(r.get("outcome", "")) + " " + str(r.get("msg", ""))[:200])]
+        for i in envish[:40]:
+            results[i] = run_forked(impl, cases[i], 6 * per_case_timeout)
+        if envish:
+            st["retried_after_environment_error"] = len(envish)
         if slow:
             st["retried_after_timeout"] = len(slow)
             st["still_not_terminating"] = sum(1 for i in slow if results[i].get("outcome") == "hang")
